@@ -34,11 +34,12 @@ PROPS = {
     "C12": dict(props="Props/C12.v", runner="conc",
                 families=["multi", "mixed"], scenarios=["s06", "s11"]),
     "C13": dict(props="Props/C13.v", runner="conc",
-                families=["wrap", "basic", "helping"], scenarios=["s15"]),
+                families=["wrap", "basic", "helping"], scenarios=["s15", "s23"]),
     "C14": dict(props="Props/C14.v", runner="seq"),
     "C15": dict(props="Props/C15.v", runner="refcnt"),
     "C16": dict(props="Props/C16.v", runner="conc", families=["cache"], scenarios=["s12"], deep=["s12"]),
-    "C17": dict(props="Props/C17.v", runner="access"),
+    "C17": dict(props="Props/C17.v", runner="access",
+                conc_grids=[("g02_stale_replacement", "C03", "a load started after a completed store must project that store's value or a later one")]),
     "C18": dict(props="Props/C18.v", runner="conc", families=["panic"], scenarios=["s18", "s09"]),
     "C19": dict(props="Props/C19.v", runner="marker"),
     "C20": dict(props="Props/C20.v", runner="serde"),
